@@ -24,9 +24,11 @@ from vlib import graphs
 FLOAT_DTYPES = ('float64', 'float32')
 INT_DTYPES = ('int64', 'int32', 'int8', 'uint8')
 DTYPES = FLOAT_DTYPES + INT_DTYPES + ('bool',)
-FORMATS_ALL = ('csr', 'csr_unsorted', 'csc', 'coo', 'coo_dup', 'lil', 'dense')
-FORMATS_CSR = ('csr', 'csr_unsorted')
-FORMATS_CSR_DENSE = ('csr', 'csr_unsorted', 'dense')
+# csr_unsorted: the column indices of every row shuffled; csr_reversed: in decreasing order (the worst case for a kernel
+# that merges sorted rows — a shuffle of a short row is often the identity)
+FORMATS_ALL = ('csr', 'csr_unsorted', 'csr_reversed', 'csc', 'coo', 'coo_dup', 'lil', 'dense')
+FORMATS_CSR = ('csr', 'csr_unsorted', 'csr_reversed')
+FORMATS_CSR_DENSE = ('csr', 'csr_unsorted', 'csr_reversed', 'dense')
 
 
 # ------------------------------------------------------------------------------------------------
@@ -58,6 +60,14 @@ def apply_rep(a, fmt, dtype, seed):
         return b
     if fmt == 'csr_unsorted':
         return graphs.unsorted_copy(b, rng)
+    if fmt == 'csr_reversed':
+        out = b.copy()
+        for i in range(out.shape[0]):
+            lo, hi = out.indptr[i], out.indptr[i + 1]
+            out.indices[lo:hi] = out.indices[lo:hi][::-1].copy()
+            out.data[lo:hi] = out.data[lo:hi][::-1].copy()
+        out.has_sorted_indices = False
+        return out
     if fmt == 'csc':
         return b.tocsc()
     if fmt in ('coo', 'coo_dup'):
@@ -103,6 +113,11 @@ def choose_reps(a, rng, policy):
             continue
         out.append((f, d))
         used.add(d)
+        if f in ('csr_unsorted', 'csr_reversed') and 'bool' in ok and d != 'bool':
+            # scipy's astype() sorts the indices of its result except when the dtype does not change: a kernel reached
+            # through `adjacency.astype(bool)` sees the stored order only for a bool matrix — always draw that one too
+            out.append((f, 'bool'))
+            used.add('bool')
     for d in ok:
         if d not in used:
             out.append((rng.choice(fmts), d))
@@ -155,6 +170,19 @@ def make_graph(rng, kind):
             ws = rng.sample(range(1, 8 * max(len(es), 1) + 8), len(es))
             a = graphs.csr_from_edges(nr, es, [k / 8 for k in ws], m=nc)
             if a.nnz and (np.diff(a.indptr).min() == 0 or np.diff(a.tocsc().indptr).min() == 0):
+                continue
+        elif kind == 'und_tri':
+            # symmetric, many triangles, rows long enough for the stored order to matter
+            n = rng.randint(7, 16)
+            if rng.random() < 0.5:
+                pool = [1]          # unit weights: representable as bool
+            how = rng.choice(['dense', 'dense', 'clique', 'blocks'])
+            if how == 'dense':
+                es = graphs.random_edges(rng, n, rng.choice([0.5, 0.7, 0.85]), directed=False)
+            else:
+                es = graphs.structured(rng, how, n)
+            a = graphs.csr_from_edges(n, es, graphs.sym_weights(rng, es, pool))
+            if a.nnz < 3 * n:
                 continue
         elif kind in ('und', 'und_conn'):
             n = _size(rng, 4, 11)
@@ -272,7 +300,10 @@ def make_aux(rng, a, kind):
 # ------------------------------------------------------------------------------------------------
 class Entry:
     def __init__(self, name, kinds, policy, tol, f, sign_free=False, norm_mask=False, needs=None, top_simple=False, tie_ok=None, spectrum=None):
-        self.name, self.kinds, self.policy, self.tol, self.f = name, tuple(kinds), policy, tol, f
+        kinds = tuple(kinds)
+        if 'und' in kinds and 'und_tri' not in kinds and policy != 'none':
+            kinds = kinds[:kinds.index('und') + 1] + ('und_tri',) + kinds[kinds.index('und') + 1:]
+        self.name, self.kinds, self.policy, self.tol, self.f = name, kinds, policy, tol, f
         self.sign_free, self.norm_mask, self.needs, self.top_simple, self.tie_ok = sign_free, norm_mask, needs, top_simple, tie_ok
         self.spectrum = spectrum        # a -> the values (returned ones + the next) whose multiplicity makes the vectors undefined
 
